@@ -30,7 +30,7 @@ run)
   esac
   cd /verif && VERIF_C05_FUZZ=${VERIF_C05_FUZZ:-0} VERIF_C03_FUZZ=${VERIF_C03_FUZZ:-0} VERIF_ROOT=$L/out VERIF_LIBSTORM=${VERIF_LIBSTORM:-/verif/target/repo/debug/libstorm.so} timeout 3600 $T/debug/$BIN "$@" > $L/last.out 2>&1
   echo "exit=$?"
-  grep -E "^C[0-9]+ tier|signature:" $L/last.out | sort | uniq -c | sort -rn | head -12
+  grep -aE "^C[0-9]+ tier|signature:" $L/last.out | sort | uniq -c | sort -rn | head -12
   cd $R && git checkout -q -- .;;
 confirm)
   ID=$1; V=$2; CRATE=$3; CDIR=$4; BIN=$5; KIND=${6:-test}
